@@ -20,7 +20,7 @@ InitialABCm == ("a" :> Acc(NoC, Manage)) @@ ("b" :> Acc(NoC, Manage)) @@ ("c" :>
 ArgsPlain == {Acc(NoC, Read), Acc(NoC, Manage)}
 ArgsManage == {Acc(NoC, Manage)}
 ArgsCond == {Acc(NoC, Manage), Acc(0, Read), Acc(1, Read), Acc(0, Write)}
-mcvars == <<ops, delivered, rejected, st, phase>>
+mcvars == <<ops, anc, delivered, rejected, st, phase>>
 
 NumRejected == Cardinality({o \in Ids : ~ops[o].ok})
 
@@ -50,6 +50,13 @@ PublishRejected ==
               /\ Publish(D, cur, author, kind, member, acc)
     /\ UNCHANGED phase
 
+\* only in the faithful model of the known finding (with the constant off the operation is a refused leaf)
+PublishRecreate ==
+    /\ Defect_RecreateAccepted
+    /\ phase = "pub" /\ Len(ops) < MaxOps /\ NumRejected = 0
+    /\ \E D \in Views, author \in Actor : Recreate(D, author)
+    /\ UNCHANGED phase
+
 StartDelivery ==
     /\ phase = "pub" /\ phase' = "dlv" /\ Replica # {}
     /\ UNCHANGED vars
@@ -70,7 +77,7 @@ Terminated ==
        \/ phase = "pub" /\ Replica = {} /\ (Len(ops) = MaxOps \/ NumRejected > 0)
     /\ UNCHANGED mcvars
 
-MCNext == PublishAccepted \/ PublishRejected \/ StartDelivery \/ DeliverAccepted \/ DeliverRejected \/ Terminated
+MCNext == PublishAccepted \/ PublishRejected \/ PublishRecreate \/ StartDelivery \/ DeliverAccepted \/ DeliverRejected \/ Terminated
 MCSpec == MCInit /\ [][MCNext]_mcvars
 
 ---------------------------------------------------------------------------
@@ -107,17 +114,22 @@ OpJson(o) == [id |-> o, author |-> ops[o].author, deps |-> SetToSeq(ops[o].deps)
               member |-> ops[o].member, c |-> ops[o].acc.c, l |-> ops[o].acc.l, ok |-> ops[o].ok]
 
 ViewJson(D) ==
-    LET states == Resolve(D)
-        cur == CurrentOf(states, D)
+    LET cur == StateOfView(D)
     IN [d |-> SetToSeq(D),
-        members |-> {[m |-> m, c |-> cur[m].acc.c, l |-> cur[m].acc.l] : m \in Members(cur)},
-        accepts |-> {[a |-> t[1], k |-> t[2], m |-> t[3], c |-> t[4].c, l |-> t[4].l] :
-                        t \in {u \in Actor \X Kinds \X Actor \X AccessArgs :
-                                 /\ u[4] \in ArgsOf(u[2])
-                                 /\ ApplyRec(cur, Op(u[1], {}, u[2], u[3], u[4], TRUE)).ok}}]
+        members |-> {[m |-> m, c |-> cur[m].acc.c, l |-> cur[m].acc.l] : m \in Members(cur)}]
+
+\* the attempts validation accepts when published from the view of ALL operations of the history
+\* (the table for a smaller view D is the table of the history that consists of D only, which is
+\* exported as well: the harness looks it up by the renumbered operations of D)
+AcceptsJson ==
+    LET cur == StateOfView(OkIds)
+    IN {[a |-> t[1], k |-> t[2], m |-> t[3], c |-> t[4].c, l |-> t[4].l] :
+           t \in {u \in Actor \X Kinds \X Actor \X (AccessArgs \cup {Acc(NoC, Pull)}) :
+                    /\ u[4] \in ArgsOf(u[2])
+                    /\ VerdictIn(cur, u[1], u[2], u[3], u[4])}}
 
 ExportHistory ==
-    (phase = "pub" /\ Len(ops) >= 2) =>
+    phase = "pub" =>
     PrintT(<<"REPLAY",
              ToJson([kind |-> "history",
                      initial |-> {[m |-> m, c |-> Initial[m].c, l |-> Initial[m].l] : m \in DOMAIN Initial},
@@ -125,5 +137,8 @@ ExportHistory ==
                      actors |-> Actor, kinds |-> Kinds,
                      accs |-> {[c |-> a.c, l |-> a.l] : a \in AccessArgs},
                      ops |-> [o \in Ids |-> OpJson(o)],
-                     views |-> {ViewJson(D) : D \in Views}])>>)
+                     views |-> {ViewJson(D) : D \in Views},
+                     accepts |-> AcceptsJson,
+                     foreign |-> [k \in Kinds \cup {"create"} |-> VerdictForeignGroup(k)],
+                     recreate |-> Defect_RecreateAccepted])>>)
 ===========================================================================
